@@ -157,3 +157,12 @@ Example init_partial_nonvacuous :
 Proof.
   split; [vm_compute; reflexivity|]. intros f [<-|[<-|[]]]; vm_compute; lia.
 Qed.
+
+(* ---- subset of a plated graph where factor 0 alone owns the plate-free variable 8 (batch of 2 out of 3):
+        the hypotheses of sub_cavity_single_owner hold, and the code now reports own^(1/3) as its cavity ---- *)
+Definition w_sub : nstate := [[(0, N 0 1); (2, N 1 2); (8, N 1 2)]; [(0, N (1#2) 1); (2, N 0 1)]].
+Example subset_single_owner_nonvacuous :
+  nget 8 (n_cavity 0 w_sub) = None
+  /\ qclt (scale_in (2#3) [8] (own N2 0 w_sub) 8) (Q2Qc 1) = true
+  /\ differs (nget 8 (sub_cavity (2#3) [8] 0 w_sub)) (n_scale (Q2Qc (1#3)) (N 1 2)) = false.
+Proof. repeat split; vm_compute; reflexivity. Qed.
